@@ -117,6 +117,17 @@ func (c *Ctx) calleeEnvV(cc *ssa.CallCommon, g *ssa.Function, env Env, callVal s
 	for i, a := range args {
 		if i < len(g.Params) {
 			ne[g.Params[i]] = c.Path(a, env)
+			// a test result handed to the callee as a boolean: the callee's branch on it is a branch on the test
+			if isBoolType(a.Type()) {
+				if o := boolOriginOf(a); o != nil {
+					if c.boolOrigins == nil {
+						c.boolOrigins = map[string]boolOrigin{}
+					}
+					if _, had := c.boolOrigins[ne[g.Params[i]]]; !had {
+						c.boolOrigins[ne[g.Params[i]]] = boolOrigin{v: o, env: env}
+					}
+				}
+			}
 		}
 	}
 	if mc, ok := cc.Value.(*ssa.MakeClosure); ok {
@@ -127,6 +138,36 @@ func (c *Ctx) calleeEnvV(cc *ssa.CallCommon, g *ssa.Function, env Env, callVal s
 		}
 	}
 	return ne
+}
+
+type boolOrigin struct {
+	v   ssa.Value // the comma-ok Lookup / TypeAssert, or the comparison
+	env Env       // the frame it was made in
+}
+
+// boolOriginOf: v is the ok result of a comma-ok lookup / type assertion, or a comparison.
+func boolOriginOf(v ssa.Value) ssa.Value {
+	switch x := v.(type) {
+	case *ssa.Extract:
+		if x.Index != 1 {
+			return nil
+		}
+		switch t := x.Tuple.(type) {
+		case *ssa.Lookup:
+			if t.CommaOk {
+				return t
+			}
+		case *ssa.TypeAssert:
+			if t.CommaOk {
+				return t
+			}
+		}
+	case *ssa.BinOp:
+		if isCmp(x.Op) {
+			return x
+		}
+	}
+	return nil
 }
 
 // sites finds the check sites of chk in f (direct matches and calls to callees that ensure chk).
@@ -142,6 +183,32 @@ func (c *Ctx) sites(f *ssa.Function, env Env, chk *GCheck, depth int) []gsite {
 			out = append(out, c.descendSites(f, env, chk, probe, depth)...)
 		}
 		return out
+	}
+	// boolean parameters that carry the result of a test made by the caller
+	for _, p := range f.Params {
+		if !isBoolType(p.Type()) || len(env) == 0 {
+			continue
+		}
+		o, ok := c.boolOrigins[env[p]]
+		if !ok {
+			continue
+		}
+		switch ov := o.v.(type) {
+		case *ssa.Lookup:
+			if chk.MatchOK != nil && chk.MatchOK(c, ov, o.env) {
+				out = append(out, gsite{cut: boolEdgesT(p, !chk.BoolFalse), instr: ov})
+			}
+		case *ssa.TypeAssert:
+			if chk.MatchOK != nil && chk.MatchOK(c, ov, o.env) {
+				out = append(out, gsite{cut: boolEdgesT(p, !chk.BoolFalse), instr: ov})
+			}
+		case *ssa.BinOp:
+			if chk.MatchCmp != nil {
+				if m, onTrue := chk.MatchCmp(c, ov, o.env); m {
+					out = append(out, gsite{cut: boolEdgesT(p, onTrue), instr: ov})
+				}
+			}
+		}
 	}
 	for _, b := range f.Blocks {
 		for _, in := range b.Instrs {
@@ -166,6 +233,10 @@ func (c *Ctx) sites(f *ssa.Function, env Env, chk *GCheck, depth int) []gsite {
 						if all {
 							match = true
 							boolWant = true
+						} else if len(cs) == 1 && isBoolType(x.Type()) && c.ensuresFalse(cs[0], c.calleeEnvV(&x.Call, cs[0], env, x), chk, depth+1) {
+							// a predicate of the opposite sense ("seen before?"): it answers false only across the check
+							match = true
+							boolWant = false
 						}
 					}
 				}
@@ -308,7 +379,7 @@ func (c *Ctx) guard(f *ssa.Function, env Env, chk *GCheck, events func(in ssa.In
 
 // ensures: every success exit of f lies behind a success edge of chk (memoised; cycles => false).
 func (c *Ctx) ensures(f *ssa.Function, env Env, chk *GCheck, depth int) (bool, []string) {
-	key := f.String() + "|" + chk.Name + "|" + env.key()
+	key := f.String() + "|" + chk.Name + fmt.Sprintf("@%p", chk) + "|" + env.key() // the predicate is part of the key: two checks may share a name
 	switch c.gmemo[key] {
 	case 1:
 		return true, nil
@@ -324,6 +395,38 @@ func (c *Ctx) ensures(f *ssa.Function, env Env, chk *GCheck, depth int) (bool, [
 		c.gmemo[key] = 1
 	}
 	return ok, w
+}
+
+// ensuresFalse: f returns a single boolean, and every exit that may return false lies behind a success edge of chk.
+func (c *Ctx) ensuresFalse(f *ssa.Function, env Env, chk *GCheck, depth int) bool {
+	if f == nil || f.Blocks == nil || !inModule(f) || depth > 8 {
+		return false
+	}
+	key := f.String() + "|" + chk.Name + fmt.Sprintf("@%p", chk) + "|" + env.key() + "|false"
+	switch c.gmemo[key] {
+	case 1:
+		return true
+	case 2:
+		return false
+	}
+	c.gmemo[key] = 2
+	n := 0
+	ok, _, sites := c.guard(f, env, chk, func(in ssa.Instruction) bool {
+		ret, isR := in.(*ssa.Return)
+		if !isR || len(ret.Results) != 1 {
+			return false
+		}
+		n++
+		if k, isK := returnedValue(ret, 0).(*ssa.Const); isK && k.Value != nil && constant.BoolVal(k.Value) {
+			return false
+		}
+		return true
+	}, depth)
+	if ok && sites > 0 {
+		c.gmemo[key] = 1
+		return true
+	}
+	return false
 }
 
 // Ensures is the exported form: success of f (under env) implies a success edge of chk was crossed.
